@@ -23,6 +23,7 @@ package arg
 //@   ensures boxed_with_dynamic_type: r != nil && result1 == nil && rt_kind(out) == reflect.Interface ==> rv_valid(result0) && rv_type(result0) == out && rv_addressable(result0) && varval[rv_addr(result0)] == r
 //@   ensures standin_retyped: r != nil && result1 == nil && rt_of(typeof(r)) != out && (rt_kind(out) == reflect.Struct || rt_kind(out) == reflect.Ptr) ==> rv_type(result0) == out && rv_word(result0) == rv_word(value_of(r))
 //@   ensures other_size_rejected: r != nil && rt_kind(out) != reflect.Interface && rt_size(rt_of(typeof(r))) != rt_size(out) ==> result1 != nil
+//@   ensures other_kinds_unaltered: r != nil && result1 == nil && rt_kind(out) != reflect.Interface && rt_kind(out) != reflect.Struct && rt_kind(out) != reflect.Ptr ==> result0 == value_of(r)
 //@   ensures same_type_unaltered: r != nil && result1 == nil && rt_of(typeof(r)) == out && rt_kind(out) != reflect.Interface ==> result0 == value_of(r)
 //@   panics_only_if rejected: (r == nil && !nil_gets_typed_zero(rt_kind(out)) && rt_kind(out) != reflect.Array) || (r != nil && (rt_of(typeof(r)) == rt_of(typeid(*iface.IContext)) || out == rt_of(typeid(*iface.IContext))))
 //@     | || (r != nil && rt_kind(out) == reflect.Interface && !rt_assignable(rt_of(typeof(r)), out))
